@@ -27,6 +27,11 @@ int main(void)
 	char * line; char * tok[16];
 	setvbuf(stdout, NULL, _IOLBF, 0);
 	while ((line = drv_getline()) != NULL) {
+		/* errno as the surrounding program left it: one of 0 / EINVAL / ERANGE / EDOM, chosen by the
+		 * case text.  parsenum.h: on success the macro "set[s] errno to zero", on failure to EINVAL
+		 * or ERANGE, so the result may not depend on (or leave standing) the value found on entry. */
+		static const int stale_errno[4] = { 0, EINVAL, ERANGE, EDOM };
+		int stale = stale_errno[(drv_case_hash(line) >> 7) & 3];
 		int n = drv_split(line, tok, 16);
 		if (n >= 10 && (strcmp(tok[0], "pn") == 0 || strcmp(tok[0], "pf") == 0)) {
 			char desc[256]; size_t len; uint8_t * s;
@@ -38,11 +43,14 @@ int main(void)
 			st = &parts[k / SITES_PER_PART][k % SITES_PER_PART];
 			if (strcmp(desc, st->desc) != 0) { printf("site-mismatch\n"); continue; }
 			s = drv_unhex(tok[9], &len, 1);		/* exactly strlen + 1 bytes */
+			errno = stale;
 			st->run((const char *)s);
-			free(s);
+			drv_scribble_free(s, len + 1);
 		} else if (n == 2 && strcmp(tok[0], "hs") == 0) {
 			uint64_t v = (uint64_t)strtoumax(tok[1], NULL, 16);
-			char * out = humansize(v);
+			char * out;
+			errno = stale;
+			out = humansize(v);
 			if (out == NULL) { printf("null\n"); continue; }
 			printf("ok "); drv_puthex((uint8_t *)out, strlen(out)); printf("\n");
 			free(out);
@@ -50,10 +58,12 @@ int main(void)
 			size_t len; uint8_t * s = drv_unhex(tok[1], &len, 1);
 			uint64_t * size = malloc(sizeof(uint64_t));	/* the only output space */
 			int rc;
-			*size = 0;
+			*size = UINT64_C(0xa5a5a5a5a5a5a5a5);	/* output space starts as junk */
+			errno = stale;
 			rc = humansize_parse((const char *)s, size);
+			drv_scribble_free(s, len + 1);
 			printf("%d %" PRIx64 "\n", rc, *size);
-			free(size); free(s);
+			free(size);
 		} else
 			printf("bad-case\n");
 	}
